@@ -37,14 +37,14 @@ def multikey_seen(h):
 def body(c):
     q = c.quick
     mc = dict(K.MC_DEFAULT, Feat='{"iter", "reject"}')
-    K.model_check(c, "commit-2txn-2key-reject", mc, INV, PROPS, bound="nval <= 3", timeout=300 if q else 1500)
+    K.model_check(c, "commit-2txn-2key-reject", mc, INV, PROPS, bound="nval <= 2" if q else "nval <= 3", timeout=3000)
     tab = K.key_table(c.seed)
     base = dict(HistLen="30", MaxOps="4", MaxActive="3", WriteWeight="2", Dumps="TRUE", BigSets="TRUE",
                 IterOptList=K.tla_seq([K.tla_opts(), K.tla_opts(rev=True), K.tla_opts(all=True)]),
                 ScanVias='{"iter"}', EnvSteps=K.tla_set(["flush", "compactL0"]))
     simA = K.hist_consts(tab, RejKinds='{"blocked", "closed"}', **base)
-    n = 700 if q else 10000
-    sims = K.generate(c, "sim-rejections", simA, n, 30, c.seed, workers=8 if q else 12, timeout=240 if q else 900)
+    n = 500 if q else 4000
+    sims = K.generate(c, "sim-rejections", simA, n, 30, c.seed, workers=8 if q else 12, timeout=1800)
     hist = K.op_histogram(sims)
     c.cov["generated_op_histogram"] = hist
     need = ["commit:ok", "commit:conflict", "commit:blocked", "commit:closed", "setBig", "dump"]
